@@ -116,6 +116,26 @@ class PathEnumerator:
         self.prune = prune
         self.inline_calls = inline_calls        # statement-level call -> the callee's body to walk in place (helper extraction)
         self._inline_depth = 0
+        self._extra_for_slice: List[ast.stmt] = []
+        if inline_calls is not None:
+            # the bodies that will be walked in place take part in the backward slice
+            todo, depth = list(self.stmts), 0
+            while todo and depth < 3:
+                nxt: List[ast.stmt] = []
+                for st0 in todo:
+                    for n in ast.walk(st0):
+                        b_ = None
+                        try:
+                            if isinstance(n, ast.Expr) and isinstance(n.value, ast.Call):
+                                b_ = inline_calls(n.value)
+                            elif isinstance(n, ast.Assign) and len(n.targets) == 1 and isinstance(n.value, ast.Call):
+                                b_ = inline_calls(n.value, n.targets[0])
+                        except TypeError:
+                            b_ = None
+                        if b_:
+                            nxt.extend(b_)
+                self._extra_for_slice.extend(nxt)
+                todo, depth = nxt, depth + 1
         self.dep_filter = (lambda k: '.' not in k) if slice_deps == 'locals' else None
         self.relevant = self._slice(set(targets)) if slice_deps else set(targets)
         self._assigned_anywhere = assigned_keys(self.stmts)
@@ -137,7 +157,7 @@ class PathEnumerator:
     def _slice(self, targets: Set[str]) -> Set[str]:
         rel = set(targets)
         all_assigns: List[Tuple[Set[str], Set[str]]] = []
-        for st in self.stmts:
+        for st in list(self.stmts) + list(getattr(self, '_extra_for_slice', [])):
             for n in ast.walk(st):
                 if isinstance(n, ast.Assign):
                     ks = set()
@@ -212,6 +232,20 @@ class PathEnumerator:
                         nxt.extend(self._walk(branch, [a], done))
                 live = nxt
             elif isinstance(st, (ast.Assign, ast.AnnAssign, ast.AugAssign)):
+                if isinstance(st, ast.Assign) and len(st.targets) == 1 and isinstance(st.value, ast.Call) and self.inline_calls is not None \
+                        and self._inline_depth < 3:
+                    body = None
+                    try:
+                        body = self.inline_calls(st.value, st.targets[0])
+                    except TypeError:
+                        body = None
+                    if body is not None:
+                        self._inline_depth += 1
+                        try:
+                            live = self._walk(body, live, done)
+                        finally:
+                            self._inline_depth -= 1
+                        continue
                 for p in live:
                     self._assign(st, p)
             elif isinstance(st, ast.Return):
